@@ -145,6 +145,7 @@ class Unit:
         self.features -= {"serde_serialization", "bench", "rand"}
         # a unit may verify the code as compiled with some default features OFF (stated in the evidence through the cfg log)
         self.features -= set(self.desc.get("features_off", []))
+        self.features |= set(self.desc.get("features_on", []))
         self.cfg_log = []
         self.desugar_counts = {}
         self.items = []        # metadata per extracted item
@@ -312,6 +313,8 @@ class Unit:
         seg_off = 0
         if "R-SEGMENT" in rules:
             text, seg_off = splice.segment(text, it["segment"])
+        if "R-SELF" in rules:
+            text, _n = splice.r_self(text, it.get("self_bound", "V"), signature=True)
         if "R-CLOSPEC" in rules:
             text, _n = splice.closure_specs(text, it.get("closure_specs", []))
         if "R-SPAWN" in rules:
@@ -334,8 +337,8 @@ class Unit:
                 gen.add(impl_header + " {", ("src~", file, item.line_start))
                 if it.get("impl_extra"):
                     gen.add(it["impl_extra"], ("gen", "impl-extra:" + path))
-            if it["kind"] == "trait_fn":
-                raise SpliceError("trait_fn items are emitted through kind=trait")
+            if it["kind"] == "trait_fn" and "R-SELF" not in rules:
+                raise SpliceError("trait_fn items need R-SELF (emitted as a free function over the implementing type)")
             seg = self._splice(text, it, file, item.line_start, approx, role, fn_id, is_twin)
             seg.render(gen)
             if not is_twin:
@@ -345,9 +348,11 @@ class Unit:
                         htext = splice.desugar(htext, [r for r in rules if r not in ("R-SPAWN", "R-REC")], {})
                     if "R-REC" in rules:
                         htext, _ = splice._r_rec(htext, splice.FnShape(text).name)
+                    if "R-SELF" in rules:
+                        htext, _ = splice.r_self(htext, it.get("self_bound", "V"), signature=False)
                     hit = dict(cfg)
                     hit["path"] = it["path"].rsplit("::", 1)[0] + "::" + cfg["name"]
-                    hit["kind"] = it["kind"]
+                    hit["kind"] = "fn" if it["kind"] == "trait_fn" else it["kind"]
                     gen.add("// ---- R-SPAWN: body of the task spawned in %s, hoisted verbatim" % path, ("gen", "item-header"))
                     hid = hit["path"].replace("::", ".")
                     hseg = self._splice(htext, hit, file, item.line_start + line_off, True, "verify", hid, False)
